@@ -59,7 +59,10 @@ func cmdRun(args []string) int {
 		iargs = append(iargs, v)
 	}
 	job := &Job{Pkg: rest[0], Func: rest[1], Args: iargs, Race: *race, PoolPrecise: *precise, SpinCut: *spin, Limit: time.Duration(*secs) * time.Second}
-	res := RunJob(l, job, func(c *sym.Config) { c.Trace = *trace; c.TraceFilter = *filter })
+	res := RunJob(l, job, func(c *sym.Config) { c.Trace = *trace; c.TraceFilter = *filter; c.MaxWitness = 8 })
+	for _, w := range res.Witness {
+		fmt.Printf("  witness: %v\n", compactInputs(w.Inputs))
+	}
 	res.Print(os.Stdout)
 	if len(res.Incon) > 0 {
 		return 2
